@@ -423,7 +423,8 @@ def _two_domains():
     d = Signal(name="d")
     ra = Signal(2, name="ra")
     rb = Signal(2, name="rb")
-    split = Signal(2, name="split")
+    # a register whose bits live in two domains: the netlist has one flip-flop per chunk, each with its own slice of the initial value
+    split = Signal(2, name="split", init=0b10)
     m.d.a += [ra.eq(ra + d), split[0].eq(~split[0])]
     m.d.b += [rb.eq(ra), split[1].eq(d)]
     return m, [d, a.rst], [a.clk, b.clk], [ra, rb, split]
